@@ -243,10 +243,16 @@ def gen_file(rng, force: dict = None):
     pieces.append(rest)
     if len(ttis) + len(pieces) > MAX_TTI:
       break
+    # extension block numbers run 00h..EFh (F0h..FDh reserved, FEh user data, FFh last block): mostly from 0, sometimes ending at EFh
+    n_ext = len(pieces) - 1
+    base = 0 if (n_ext == 0 or rng.random() < 0.7) else rng.choice([0xF0 - n_ext, 0xF0 - n_ext, 0xEF - n_ext, 0x7F])
     for j, piece in enumerate(pieces):
       last = j == len(pieces) - 1
-      ttis.append({"sgn": sgn, "sn": sn, "ebn": 0xFF if last else j, "cs": cs, "tci": tci, "tco": tco, "vp": vp, "jc": jc,
+      ttis.append({"sgn": sgn, "sn": sn, "ebn": 0xFF if last else base + j, "cs": cs, "tci": tci, "tco": tco, "vp": vp, "jc": jc,
                    "cf": 1 if comment else 0, "tf": piece})
+      if not last and rng.random() < 0.04 and len(ttis) + (len(pieces) - j) < MAX_TTI:
+        ttis.append({"sgn": sgn, "sn": sn, "ebn": rng.choice([0xF0, 0xF7, 0xFD]), "cs": cs, "tci": tci, "tco": tco, "vp": vp, "jc": jc, "cf": 0,
+                     "tf": b"RESERVED"})
       if not last and rng.random() < 0.05 and len(ttis) + (len(pieces) - j) < MAX_TTI:
         ttis.append({"sgn": sgn, "sn": sn, "ebn": 0xFE, "cs": cs, "tci": tci, "tco": tco, "vp": vp, "jc": jc, "cf": 0,
                      "tf": b"UDINCHAIN"})
